@@ -23,16 +23,17 @@ PERIOD, LIFE = 0.5, 1.0
 
 
 class Reconnect(Scenario):
-    def __init__(self, cause, trigger, rounds=1, alts=(), modes=('Q',), lease=False, flavour='tcp'):
+    def __init__(self, cause, trigger, rounds=1, alts=(), modes=('Q',), lease=False, flavour='tcp', gate=False):
         self.name = 'reconnect'
         self.cause, self.trigger, self.rounds, self.lease = cause, trigger, rounds, lease
         self.flavour = flavour
-        self.params = {'cause': cause, 'trigger': trigger, 'rounds': rounds, 'alts': list(alts), 'modes': list(modes), 'lease': lease, 'flavour': flavour}
+        self.gate = gate  # connect() of every later transport suspends until the explorer lets it finish
+        self.params = {'cause': cause, 'trigger': trigger, 'rounds': rounds, 'alts': list(alts), 'modes': list(modes), 'lease': lease, 'flavour': flavour, 'gate': gate}
         self.world_kw = {'alts': alts, 'modes': modes, 'fault_budget': rounds if cause != 'healthy' else 0, 'horizon': 2.0 * rounds + 1.6, 'step_cap': 900}
 
     def setup(self, w):
         from rsocket.helpers import create_future
-        conns = [w.new_conn(self.flavour) for _ in range(self.rounds + 1)]
+        conns = [w.new_conn(self.flavour, connect_gate=(self.gate and i > 0)) for i in range(self.rounds + 1)]
         w.objs['conns'] = conns
         late = w.objs['late'] = {}
 
@@ -222,6 +223,11 @@ def make_units(tier):
         K = 8
         for k in range(K):
             units.append({'cause': cause, 'trigger': trig, 'rounds': 1, 'bound': 1, 'shard': [k, K], 'alts': [], 'lease': True})
+    # transports whose connect() suspends (as the aiohttp client's does): the gate is an explicit environment event
+    for cause, trig in COMBOS:
+        K = 4
+        for k in range(K):
+            units.append({'cause': cause, 'trigger': trig, 'rounds': 1, 'bound': 1, 'shard': [k, K], 'alts': [], 'gate': True})
     # the QUIC transport (the other one that reports a lost connection); eof and rst are the same event there
     for cause, trig in COMBOS:
         if cause == 'eof':
@@ -242,7 +248,7 @@ def bounds(tier):
 
 
 def scenario_of(unit):
-    return Reconnect(unit['cause'], unit['trigger'], unit['rounds'], alts=tuple(unit['alts']), lease=unit.get('lease', False), flavour=unit.get('flavour', 'tcp'))
+    return Reconnect(unit['cause'], unit['trigger'], unit['rounds'], alts=tuple(unit['alts']), lease=unit.get('lease', False), flavour=unit.get('flavour', 'tcp'), gate=unit.get('gate', False))
 
 
 def run_unit(unit, part):
@@ -250,7 +256,7 @@ def run_unit(unit, part):
 
 
 def scenario_from(name, params):
-    return Reconnect(params['cause'], params['trigger'], params['rounds'], tuple(params['alts']), tuple(params['modes']), params.get('lease', False), params.get('flavour', 'tcp'))
+    return Reconnect(params['cause'], params['trigger'], params['rounds'], tuple(params['alts']), tuple(params['modes']), params.get('lease', False), params.get('flavour', 'tcp'), params.get('gate', False))
 
 
 def replay(rec):
